@@ -272,6 +272,18 @@ theorem cacheSound_getSubtree (t : T) (h : CacheSound t) (e : Bool) (n : Nat) : 
   · split <;> exact h0
   all_goals exact h0
 
+theorem cacheSound_orientate (t : T) (h : CacheSound t) : CacheSound t.orientate.2 := by
+  unfold T.orientate
+  rcases t.g.orientate with ⟨u, g'⟩ | g' <;> simp only
+  all_goals
+    by_cases hg : g' = t.g
+    · subst hg
+      simp only [if_true]
+      intro hv
+      rw [← h hv]
+      exact isTree_congr rfl rfl rfl
+    · simp only [hg, if_false]; exact cacheSound_invalid
+
 /-- one operation keeps the cache sound -/
 theorem cacheSound_step (t : T) (h : CacheSound t) (op : TOp) : CacheSound (t.step op) := by
   cases op with
@@ -296,11 +308,16 @@ theorem cacheSound_step (t : T) (h : CacheSound t) (op : TOp) : CacheSound (t.st
     · exact h
     · exact h
   | unRoot j => exact cacheSound_unRoot t h j
+  | createNodeFromNode o => exact cacheSound_lift t h _
+  | createNodeOnEdge e => exact cacheSound_lift t h _
+  | createNodeFromEdge e => exact cacheSound_lift t h _
+  | orientate => exact cacheSound_orientate t h
   | isValid => exact cacheSound_isValid t h
   | getSubtree e n => exact cacheSound_getSubtree t h e n
 
 /-- **cache_sound**: after any history of topology edits (node creations, links, unlinks, deletions,
-add son, set father, remove son, re-root, un-root, set root, direction changes) and validity
+add son, set father, remove son, re-root, un-root, set root, direction changes, the inherited `createNodeFromNode` /
+`createNodeOnEdge` / `createNodeFromEdge` / `orientate`) and validity
 queries, each call succeeding or raising, a set validity flag means the traversal answers true on
 the graph as it is now.  (`T.step (.rootAt n)` falls back to "no step" when the model's `rootAt` has no answer: that never
 happens on a reachable state, `rootAt_total` in `Props/C15RootAt.lean`.) -/
